@@ -66,6 +66,11 @@ func init() {
 	for _, n := range []string{"skipType", "skipstr", "p2i32"} {
 		fnSpecs = append(fnSpecs, fnSpec{"protocol/thrift", "", n, "thrift_" + n})
 	}
+	for _, n := range []string{"FastRead", "BLength", "FastWrite"} {
+		fnSpecs = append(fnSpecs, fnSpec{"protocol/thrift", "ApplicationException", n, "AppEx_" + n})
+	}
+	fnSpecs = append(fnSpecs, fnSpec{"protocol/thrift/base", "BaseResp", "FastRead", "BaseResp_FastRead"})
+	fnSpecs = append(fnSpecs, fnSpec{"protocol/thrift/base", "Base", "FastRead", "Base_FastRead"})
 	for _, n := range []string{"appendUint32", "appendUint64"} {
 		fnSpecs = append(fnSpecs, fnSpec{"protocol/thrift", "", n, "thrift_" + n})
 	}
@@ -88,6 +93,7 @@ const (
 	tMapIB // map[<integer>]string / []byte
 	tMapBB // map[string]string
 	tPtr   // unsafe.Pointer into a byte slice: (bytes, offset); only as a parameter
+	tUnit  // a value of a stateless struct type (thrift.BinaryProtocol{})
 )
 
 func (t lty) String() string {
@@ -104,6 +110,8 @@ func (t lty) String() string {
 		return "(GoMap Int Bytes)"
 	case tMapBB:
 		return "(GoMap Bytes Bytes)"
+	case tUnit:
+		return "Unit"
 	}
 	return "?"
 }
@@ -122,6 +130,8 @@ func (t lty) zero() string {
 		return "(none : GoMap Int Bytes)"
 	case tMapBB:
 		return "(none : GoMap Bytes Bytes)"
+	case tUnit:
+		return "()"
 	}
 	return "?"
 }
@@ -155,6 +165,10 @@ func leanType(t types.Type) lty {
 		if t.String() == "error" {
 			return tErr
 		}
+	case *types.Struct:
+		if u.NumFields() == 0 {
+			return tUnit
+		}
 	case *types.Map:
 		k, v := leanType(u.Key()), leanType(u.Elem())
 		if k == tInt && v == tBytes {
@@ -181,6 +195,31 @@ func valType(t types.Type) types.Type {
 	}
 	return t
 }
+
+// structOf: t is a (pointer to a) named struct type all of whose fields the translator supports
+func structOf(t types.Type) (*types.Named, *types.Struct, bool) {
+	if p, ok := t.Underlying().(*types.Pointer); ok {
+		t = p.Elem()
+	}
+	n, ok := t.(*types.Named)
+	if !ok {
+		return nil, nil, false
+	}
+	st, ok := n.Underlying().(*types.Struct)
+	if !ok || st.NumFields() == 0 {
+		return nil, nil, false
+	}
+	for i := 0; i < st.NumFields(); i++ {
+		switch leanType(st.Field(i).Type()) {
+		case tInt, tBool, tBytes, tMapIB, tMapBB:
+		default:
+			return nil, nil, false
+		}
+	}
+	return n, st, true
+}
+
+func structLeanName(n *types.Named) string { return "S_" + n.Obj().Pkg().Name() + "_" + n.Obj().Name() }
 
 func isIntPtr(t types.Type) bool {
 	p, ok := t.Underlying().(*types.Pointer)
@@ -218,6 +257,9 @@ type fnInfo struct {
 	globals  []string     // package-level bool variables read (directly or through callees), sorted
 	results  []lty
 	deps     []*fnInfo
+	recv     *types.Var // a struct receiver the body uses (nil: no receiver, or a stateless one)
+	recvMut  bool       // the body assigns to its fields: the receiver is returned as the first result
+	labels   map[string][]ast.Stmt // top-level labels: the statements from the label to the end of the body
 	selfrec  bool     // calls itself: defined by recursion on the fuel, loops take the recursive call as a parameter
 	fuel     bool     // has loops (directly or through callees): takes a leading `fuel : Nat`
 	pre      []string // loop functions, emitted before the function
@@ -233,6 +275,7 @@ type ftr struct {
 	all    map[*types.Func]*fnInfo
 	byName map[string]*fnInfo
 	tables map[string]string // package-level constant arrays used by translated functions: Lean name -> definition
+	structs map[string]*types.Named // struct types of receivers: Lean structure name -> Go type
 }
 
 type fctx struct {
@@ -327,6 +370,8 @@ func terminates(stmts []ast.Stmt) bool {
 	switch s := stmts[len(stmts)-1].(type) {
 	case *ast.ReturnStmt:
 		return true
+	case *ast.LabeledStmt:
+		return terminates([]ast.Stmt{s.Stmt})
 	case *ast.BlockStmt:
 		return terminates(s.List)
 	case *ast.IfStmt:
@@ -381,7 +426,24 @@ func (f *fctx) stmts(list []ast.Stmt, rest []ast.Stmt, depth int) []string {
 			tail := append(append([]ast.Stmt{}, list[i+1:]...), rest...)
 			f.switchStmt(b, st, tail, depth)
 			return b.lines
+		case *ast.LabeledStmt:
+			// reached by falling into the label: continue with the labelled statement
+			tail := append(append([]ast.Stmt{st.Stmt}, list[i+1:]...), rest...)
+			b.lines = append(b.lines, f.stmts(tail, nil, depth+1)...)
+			return b.lines
 		case *ast.BranchStmt:
+			if st.Tok == token.GOTO && st.Label != nil {
+				tgt, ok := f.fi.labels[st.Label.Name]
+				if !ok {
+					f.fail(s, "goto %s: not a label at the top level of the function body", st.Label.Name)
+				}
+				if !terminates(tgt) {
+					f.fail(s, "goto %s: the labelled code does not end in a return", st.Label.Name)
+				}
+				// the labelled statements run to the end of the function: translate them here
+				b.lines = append(b.lines, f.stmts(tgt, nil, depth+1)...)
+				return b.lines
+			}
 			if st.Label != nil || f.loop == nil {
 				f.fail(s, "branch statement %s not supported here", st.Tok)
 			}
@@ -425,6 +487,10 @@ func (f *fctx) tyOf(o types.Object) string {
 	if f.views[o] || leanType(o.Type()) == tPtr {
 		return "Bytes"
 	}
+	if n, _, ok := structOf(o.Type()); ok {
+		f.t.structs[structLeanName(n)] = n
+		return structLeanName(n)
+	}
 	return leanType(o.Type()).String()
 }
 
@@ -435,6 +501,9 @@ func (f *fctx) hasOff(o types.Object) bool { return f.views[o] || leanType(o.Typ
 func (f *fctx) paramTypes() []string {
 	sig := f.fi.obj.Type().(*types.Signature)
 	var ts []string
+	if f.fi.recv != nil {
+		ts = append(ts, f.tyOf(f.fi.recv))
+	}
 	for i := 0; i < sig.Params().Len(); i++ {
 		p := sig.Params().At(i)
 		ts = append(ts, f.tyOf(p))
@@ -478,6 +547,9 @@ func (f *fctx) modTuple(l *loopCtx) string {
 func (f *fctx) retTypeStr() string {
 	var rts []string
 	sig := f.fi.obj.Type().(*types.Signature)
+	if f.fi.recvMut {
+		rts = append(rts, f.tyOf(f.fi.recv))
+	}
 	for i := 0; i < sig.Params().Len(); i++ {
 		if f.fi.mutated[i] {
 			rts = append(rts, f.tyOf(sig.Params().At(i)))
@@ -539,7 +611,7 @@ func (f *fctx) loopCall(l *loopCtx, fuel string) string {
 	for _, o := range l.mods {
 		args = append(args, f.nameOf(o))
 	}
-	return l.name + " " + strings.Join(args, " ")
+	return l.name + " «GA»" + strings.Join(args, " ")
 }
 
 func (f *fctx) isMod(l *loopCtx, o types.Object) bool {
@@ -569,6 +641,11 @@ func (f *fctx) assignedIn(nodes ...ast.Node) map[types.Object]bool {
 			case *ast.SliceExpr:
 				e = stripParens(x.X)
 				continue
+			case *ast.SelectorExpr:
+				if s, ok := info.Selections[x]; ok && s.Kind() == types.FieldVal {
+					e = stripParens(x.X)
+					continue
+				}
 			case *ast.UnaryExpr:
 				if x.Op == token.AND {
 					e = stripParens(x.X)
@@ -657,6 +734,14 @@ func (f *fctx) forStmt(b *blk, st *ast.ForStmt, tail []ast.Stmt, depth int) {
 	visit(st.Cond)
 	visit(st.Post)
 	visit(st.Body)
+	ast.Inspect(st.Body, func(n ast.Node) bool {
+		if br, ok := n.(*ast.BranchStmt); ok && br.Tok == token.GOTO && br.Label != nil {
+			for _, ts := range f.fi.labels[br.Label.Name] {
+				visit(ts)
+			}
+		}
+		return true
+	})
 	sort.Slice(free, func(i, j int) bool { return free[i].Pos() < free[j].Pos() })
 	asg := f.assignedIn(st.Post, st.Body)
 	var mods []types.Object
@@ -709,14 +794,14 @@ func (f *fctx) forStmt(b *blk, st *ast.ForStmt, tail []ast.Stmt, depth int) {
 		body.lines = append(body.lines, f.stmts(st.Body.List, nil, depth+1)...)
 	}
 	f.loop, f.inSw = savedLoop, savedSw
-	if len(f.globals) != nglob {
-		f.fail(st, "package-level variable read inside a loop")
-	}
+	_ = nglob // package-level bool variables read inside the loop: the loop function takes all of the enclosing
+	// function's globals as leading parameters (placeholders, filled in when the function is complete)
 	var sb strings.Builder
 	pos := f.pk.Fset.Position(st.For)
 	fmt.Fprintf(&sb, "/-- the `for` loop at %s:%d of %s (fuel = an upper bound on the number of iterations) -/\n", filepath.Base(pos.Filename), pos.Line, f.fi.spec.name)
 	gp := ""
 	// package-level bool parameters are appended by the caller through f.globals: loops read them as ordinary names
+	gp = "«GP»"
 	fmt.Fprintf(&sb, "def %s %s%s: Nat → %s → GM (LoopR (%s) (%s))\n", l.name, gp, strings.Join(params, " ")+" ", strings.Join(append([]string{}, mtysOrUnit(mtys)...), " → "), f.retTypeStr(), sigma)
 	fmt.Fprintf(&sb, "  | 0, %s => .panic \"nofuel\"\n", strings.Join(underscores(len(mtysOrUnit(mtys))), ", "))
 	fmt.Fprintf(&sb, "  | fuel+1, %s => do\n", strings.Join(namesOrUnit(mnames), ", "))
@@ -909,6 +994,9 @@ func (f *fctx) ifStmt(b *blk, st *ast.IfStmt, tail []ast.Stmt, depth int) {
 func (f *fctx) pureResult(b *blk, vals []string) {
 	var parts []string
 	sig := f.fi.obj.Type().(*types.Signature)
+	if f.fi.recvMut {
+		parts = append(parts, f.nameOf(f.fi.recv))
+	}
 	for i := 0; i < sig.Params().Len(); i++ {
 		if f.fi.mutated[i] {
 			parts = append(parts, f.nameOf(sig.Params().At(i)))
@@ -960,6 +1048,40 @@ func (f *fctx) bind(b *blk, o types.Object, val string) {
 	b.add("let " + f.nameOf(o) + " := " + val)
 }
 
+// fieldTarget: `p.F` with p the struct receiver: the field name
+func (f *fctx) fieldTarget(e ast.Expr) (string, types.Type, bool) {
+	sel, ok := stripParens(e).(*ast.SelectorExpr)
+	if !ok || f.fi.recv == nil {
+		return "", nil, false
+	}
+	id, ok := stripParens(sel.X).(*ast.Ident)
+	if !ok || f.pk.TypesInfo.Uses[id] != types.Object(f.fi.recv) {
+		return "", nil, false
+	}
+	s, ok := f.pk.TypesInfo.Selections[sel]
+	if !ok || s.Kind() != types.FieldVal {
+		return "", nil, false
+	}
+	return sel.Sel.Name, s.Obj().Type(), true
+}
+
+// bindTarget: assignment of val to an identifier, `*p`, or a receiver field
+func (f *fctx) bindTarget(b *blk, at ast.Node, l ast.Expr, val string) {
+	if fld, _, ok := f.fieldTarget(l); ok {
+		n := f.nameOf(f.fi.recv)
+		b.add(fmt.Sprintf("let %s := { %s with %s := %s }", n, n, fld, val))
+		return
+	}
+	if _, ok := stripParens(l).(*ast.Ident); !ok && f.lhsObj(l) == nil {
+		f.fail(at, "assignment target %T not supported", l)
+	}
+	o := f.lhsObj(l)
+	if o != nil && f.views[o] {
+		f.fail(at, "assignment to a written-through parameter")
+	}
+	f.bind(b, o, val)
+}
+
 func (f *fctx) lhsObj(e ast.Expr) types.Object {
 	e = stripParens(e)
 	if st, ok := e.(*ast.StarExpr); ok { // *p = … with p an in/out pointer parameter
@@ -1004,7 +1126,9 @@ func (f *fctx) assign(b *blk, st *ast.AssignStmt) {
 						want = valType(o.Type())
 					}
 				} else if !ok {
-					if f.lhsObj(st.Lhs[i]) == nil {
+					if _, ft, isF := f.fieldTarget(st.Lhs[i]); isF {
+						want = ft
+					} else if f.lhsObj(st.Lhs[i]) == nil {
 						f.fail(st, "assignment target %T not supported", st.Lhs[i])
 					}
 				}
@@ -1022,11 +1146,7 @@ func (f *fctx) assign(b *blk, st *ast.AssignStmt) {
 				}
 			}
 			for i, l := range st.Lhs {
-				o := f.lhsObj(l)
-				if o != nil && f.views[o] {
-					f.fail(st, "assignment to a written-through parameter")
-				}
-				f.bind(b, o, vals[i])
+				f.bindTarget(b, st, l, vals[i])
 			}
 			return
 		}
@@ -1037,14 +1157,7 @@ func (f *fctx) assign(b *blk, st *ast.AssignStmt) {
 			}
 			vals := f.callMulti(b, call, len(st.Lhs))
 			for i, l := range st.Lhs {
-				if _, ok := stripParens(l).(*ast.Ident); !ok && f.lhsObj(l) == nil {
-					f.fail(st, "assignment target %T not supported", l)
-				}
-				o := f.lhsObj(l)
-				if o != nil && f.views[o] {
-					f.fail(st, "assignment to a written-through parameter")
-				}
-				f.bind(b, o, vals[i])
+				f.bindTarget(b, st, l, vals[i])
 			}
 			return
 		}
@@ -1158,6 +1271,16 @@ func (f *fctx) viewOf(b *blk, e ast.Expr) (types.Object, string, bool) {
 }
 
 func (f *fctx) store(b *blk, ix *ast.IndexExpr, rhs ast.Expr) {
+	if fld, ft, ok := f.fieldTarget(ix.X); ok && isMap(ft) {
+		mt := ft.Underlying().(*types.Map)
+		k := f.exprAs(b, ix.Index, mt.Key())
+		v := f.exprAs(b, rhs, mt.Elem())
+		n := f.nameOf(f.fi.recv)
+		t := f.fresh()
+		b.add(fmt.Sprintf("let %s ← mapSet %s.%s %s %s", t, n, fld, atom(k), atom(v)))
+		b.add(fmt.Sprintf("let %s := { %s with %s := %s }", n, n, fld, t))
+		return
+	}
 	id, ok := stripParens(ix.X).(*ast.Ident)
 	if !ok {
 		f.fail(ix, "store target")
@@ -1444,11 +1567,22 @@ func (f *fctx) expr(b *blk, e ast.Expr) string {
 		}
 		return f.ident(b, x, o)
 	case *ast.SelectorExpr:
+		// a field of the struct receiver
+		if id, ok := stripParens(x.X).(*ast.Ident); ok && f.fi.recv != nil && info.Uses[id] == types.Object(f.fi.recv) {
+			if sel, ok := info.Selections[x]; ok && sel.Kind() == types.FieldVal {
+				return f.nameOf(f.fi.recv) + "." + x.Sel.Name
+			}
+		}
 		// a package-level error value of another package (io.EOF)
 		if o, ok := info.Uses[x.Sel].(*types.Var); ok && o.Pkg() != nil && leanType(o.Type()) == tErr {
 			return "(GoErr.named " + leanStr(o.Pkg().Name()+"."+o.Name()) + ")"
 		}
 		f.fail(e, "selector %s not supported", f.src(e))
+	case *ast.CompositeLit:
+		if st, ok := tv.Type.Underlying().(*types.Struct); ok && st.NumFields() == 0 && len(x.Elts) == 0 {
+			return "()" // a value of a stateless type (thrift.BinaryProtocol{}): only its methods are used
+		}
+		f.fail(e, "composite literal not supported")
 	case *ast.StarExpr:
 		if id, ok := stripParens(x.X).(*ast.Ident); ok {
 			if o := info.Uses[id]; o != nil && isIntPtr(o.Type()) {
@@ -1809,7 +1943,9 @@ func (f *fctx) callMulti(b *blk, call *ast.CallExpr, n int) []string {
 		case "copy":
 			return []string{f.copyCall(b, call)}
 		case "make":
-			if lt := leanType(info.TypeOf(call)); (lt == tMapIB || lt == tMapBB) && len(call.Args) == 1 {
+			if lt := leanType(info.TypeOf(call)); (lt == tMapIB || lt == tMapBB) && (len(call.Args) == 1 || (len(call.Args) == 2 && !f.canPanic(call.Args[1]))) {
+				// a size hint only sizes the allocation (a negative hint panics in Go: not modelled, the callers here
+				// pass an int converted from a uint32)
 				return []string{"(some [] : " + strings.Trim(lt.String(), "()") + ")"}
 			}
 		}
@@ -1828,6 +1964,11 @@ func (f *fctx) callMulti(b *blk, call *ast.CallExpr, n int) []string {
 			}
 			return nil
 		}
+	}
+	if name == "PrependError" && (recv == "thrift" || recv == "") && len(call.Args) == 2 {
+		// thrift.PrependError(prefix, err): keeps the exception kind and type id (property C18), changes the text, which
+		// is not modelled: the prefix argument is not translated
+		return []string{"prependErr " + atom(f.expr(b, call.Args[1]))}
 	}
 	if (recv == "fmt" && name == "Errorf") || (recv == "errors" && name == "New") {
 		// an error value made on the spot: opaque, identified by its format string (the arguments only feed the text)
@@ -2100,6 +2241,28 @@ func (t *ftr) translate(fi *fnInfo) {
 		f.fail(fi.fd, "variadic")
 	}
 	var params []string
+	fi.labels = map[string][]ast.Stmt{}
+	for i, st := range fi.fd.Body.List {
+		if ls, ok := st.(*ast.LabeledStmt); ok {
+			fi.labels[ls.Label.Name] = append([]ast.Stmt{ls.Stmt}, fi.fd.Body.List[i+1:]...)
+		}
+	}
+	if rv := sig.Recv(); rv != nil && rv.Name() != "" && rv.Name() != "_" {
+		if _, _, ok := structOf(rv.Type()); ok {
+			used := false
+			ast.Inspect(fi.fd.Body, func(n ast.Node) bool {
+				if id, ok := n.(*ast.Ident); ok && fi.pk.TypesInfo.Uses[id] == types.Object(rv) {
+					used = true
+				}
+				return !used
+			})
+			if used {
+				fi.recv = rv
+				fi.recvMut = f.assignedIn(fi.fd.Body)[rv]
+				params = append(params, fmt.Sprintf("(%s : %s)", f.nameOf(rv), f.tyOf(rv)))
+			}
+		}
+	}
 	for i := 0; i < sig.Params().Len(); i++ {
 		p := sig.Params().At(i)
 		lt := leanType(p.Type())
@@ -2118,6 +2281,9 @@ func (t *ftr) translate(fi *fnInfo) {
 	}
 	fi.results = nil
 	var rts []string
+	if fi.recvMut {
+		rts = append(rts, f.tyOf(fi.recv))
+	}
 	for i := 0; i < sig.Params().Len(); i++ {
 		if fi.mutated[i] {
 			rts = append(rts, f.tyOf(sig.Params().At(i)))
@@ -2157,6 +2323,16 @@ func (t *ftr) translate(fi *fnInfo) {
 	for _, g := range fi.globals {
 		gparams = append(gparams, fmt.Sprintf("(g_%s : Bool)", g))
 		gargs = append(gargs, "g_"+g)
+	}
+	gpS, gaS := "", ""
+	if len(gparams) > 0 {
+		gpS, gaS = strings.Join(gparams, " ")+" ", strings.Join(gargs, " ")+" "
+	}
+	for i := range fi.pre {
+		fi.pre[i] = strings.ReplaceAll(strings.ReplaceAll(fi.pre[i], "«GP»", gpS), "«GA»", gaS)
+	}
+	for i := range b.lines {
+		b.lines[i] = strings.ReplaceAll(b.lines[i], "«GA»", gaS)
 	}
 	fi.fuel = f.fuel || fi.selfrec
 	if fi.fuel && !fi.selfrec {
@@ -2201,7 +2377,7 @@ func (t *ftr) translate(fi *fnInfo) {
 }
 
 func (c *ctx) emitFuncs(repo, path string) {
-	t := &ftr{c: c, all: map[*types.Func]*fnInfo{}, byName: map[string]*fnInfo{}, tables: map[string]string{}}
+	t := &ftr{c: c, all: map[*types.Func]*fnInfo{}, byName: map[string]*fnInfo{}, tables: map[string]string{}, structs: map[string]*types.Named{}}
 	var order []*fnInfo
 	for _, sp := range fnSpecs {
 		fi := &fnInfo{spec: sp}
@@ -2237,6 +2413,20 @@ func (c *ctx) emitFuncs(repo, path string) {
 	for _, n := range tnames {
 		out.WriteString(t.tables[n])
 		out.WriteString("\n")
+	}
+	snames := make([]string, 0, len(t.structs))
+	for n := range t.structs {
+		snames = append(snames, n)
+	}
+	sort.Strings(snames)
+	for _, n := range snames {
+		nt := t.structs[n]
+		st := nt.Underlying().(*types.Struct)
+		fmt.Fprintf(&out, "/-- %s.%s (fields in declaration order) -/\nstructure %s where\n", nt.Obj().Pkg().Path(), nt.Obj().Name(), n)
+		for i := 0; i < st.NumFields(); i++ {
+			fmt.Fprintf(&out, "  %s : %s\n", st.Field(i).Name(), strings.Trim(leanType(st.Field(i).Type()).String(), "()"))
+		}
+		out.WriteString("deriving DecidableEq\n\n")
 	}
 	emitted := map[*fnInfo]bool{}
 	var emit func(fi *fnInfo)
